@@ -78,6 +78,36 @@ func init() {
 			{Name: "only the first list entry is blanked", ExpectRule: "C35.R1", ExpectKey: "SOCKS5.Auth.Users[].Password", Edits: []Edit{
 				{File: cfgFile, Old: "\tfor i := range redacted.SOCKS5.Auth.Users {", New: "\tfor i := range redacted.SOCKS5.Auth.Users[:min(1, len(redacted.SOCKS5.Auth.Users))] {"},
 			}},
+			{Name: "rewrite: value-returning masked(string) string and a sanitized() struct helper", Edits: []Edit{
+				{File: cfgFile, Old: "\tredact(&redacted.Agent.PrivateKey)\n", New: "\tredacted.Agent.PrivateKey = masked(redacted.Agent.PrivateKey)\n"},
+				{File: cfgFile, Old: "\t\tredact(&redacted.Peers[i].TLS.Key)\n\t\tredact(&redacted.Peers[i].TLS.KeyPEM)\n", New: "\t\tp := &redacted.Peers[i]\n\t\tp.TLS = p.TLS.sanitized()\n"},
+				{File: cfgFile, Old: "// Redacted returns a copy of the config with sensitive values redacted.", New: "func masked(secret string) string {\n\tswitch secret {\n\tcase \"\":\n\t\treturn \"\"\n\tdefault:\n\t\treturn redactedValue\n\t}\n}\n\nfunc (t TLSConfig) sanitized() TLSConfig {\n\tt.KeyPEM = masked(t.KeyPEM)\n\tt.Key = masked(t.Key)\n\treturn t\n}\n\n// Redacted returns a copy of the config with sensitive values redacted."},
+			}},
+			{Name: "value masker lets short secrets through", ExpectRule: "C35.R1", ExpectKey: "Agent.PrivateKey", Edits: []Edit{
+				{File: cfgFile, Old: "\tredact(&redacted.Agent.PrivateKey)\n", New: "\tredacted.Agent.PrivateKey = masked(redacted.Agent.PrivateKey)\n"},
+				{File: cfgFile, Old: "// Redacted returns a copy of the config with sensitive values redacted.", New: "func masked(secret string) string {\n\tif len(secret) < 8 {\n\t\treturn secret\n\t}\n\treturn redactedValue\n}\n\n// Redacted returns a copy of the config with sensitive values redacted."},
+			}},
+			{Name: "sanitized() struct helper forgets one of the two key forms", ExpectRule: "C35.R1", ExpectKey: "Peers[].TLS.KeyPEM", Edits: []Edit{
+				{File: cfgFile, Old: "\t\tredact(&redacted.Peers[i].TLS.Key)\n\t\tredact(&redacted.Peers[i].TLS.KeyPEM)\n", New: "\t\tredacted.Peers[i].TLS = redacted.Peers[i].TLS.sanitized()\n"},
+				{File: cfgFile, Old: "// Redacted returns a copy of the config with sensitive values redacted.", New: "func (t TLSConfig) sanitized() TLSConfig {\n\tt.Key = redactedValue\n\treturn t\n}\n\n// Redacted returns a copy of the config with sensitive values redacted."},
+			}},
+			{Name: "rewrite: table of pointers to secret fields blanked by a loop helper", Edits: []Edit{
+				{File: cfgFile, Old: "\tredact(&redacted.Management.PrivateKey)\n\tredact(&redacted.Management.SigningPrivateKey)\n", New: "\tredactAll(redacted.moreSecrets())\n"},
+				{File: cfgFile, Old: "\tfor i := range redacted.SOCKS5.Auth.Users {\n\t\tredact(&redacted.SOCKS5.Auth.Users[i].Password)\n\t\tredact(&redacted.SOCKS5.Auth.Users[i].PasswordHash)\n\t}\n", New: ""},
+				{File: cfgFile, Old: "// Redacted returns a copy of the config with sensitive values redacted.", New: "func redactAll(fields []*string) {\n\tfor _, f := range fields {\n\t\tif len(*f) == 0 {\n\t\t\tcontinue\n\t\t}\n\t\t*f = redactedValue\n\t}\n}\n\nfunc (c *Config) moreSecrets() []*string {\n\tfields := []*string{&c.Management.PrivateKey, &c.Management.SigningPrivateKey}\n\tusers := c.SOCKS5.Auth.Users\n\tfor i := range users {\n\t\tfields = append(fields, &users[i].Password, &users[i].PasswordHash)\n\t}\n\treturn fields\n}\n\n// Redacted returns a copy of the config with sensitive values redacted."},
+			}},
+			{Name: "pointer table misses a secret field", ExpectRule: "C35.R1", ExpectKey: "Management.SigningPrivateKey", Edits: []Edit{
+				{File: cfgFile, Old: "\tredact(&redacted.Management.PrivateKey)\n\tredact(&redacted.Management.SigningPrivateKey)\n", New: "\tredactAll(redacted.moreSecrets())\n"},
+				{File: cfgFile, Old: "// Redacted returns a copy of the config with sensitive values redacted.", New: "func redactAll(fields []*string) {\n\tfor _, f := range fields {\n\t\tif len(*f) == 0 {\n\t\t\tcontinue\n\t\t}\n\t\t*f = redactedValue\n\t}\n}\n\nfunc (c *Config) moreSecrets() []*string {\n\treturn []*string{&c.Management.PrivateKey}\n}\n\n// Redacted returns a copy of the config with sensitive values redacted."},
+			}},
+			{Name: "pointer table taken from the original instead of the copy", ExpectRule: "C35.R3", Edits: []Edit{
+				{File: cfgFile, Old: "\tredact(&redacted.Management.PrivateKey)\n\tredact(&redacted.Management.SigningPrivateKey)\n", New: "\tredactAll(c.moreSecrets())\n"},
+				{File: cfgFile, Old: "// Redacted returns a copy of the config with sensitive values redacted.", New: "func redactAll(fields []*string) {\n\tfor _, f := range fields {\n\t\tif len(*f) == 0 {\n\t\t\tcontinue\n\t\t}\n\t\t*f = redactedValue\n\t}\n}\n\nfunc (c *Config) moreSecrets() []*string {\n\treturn []*string{&c.Management.PrivateKey, &c.Management.SigningPrivateKey}\n}\n\n// Redacted returns a copy of the config with sensitive values redacted."},
+			}},
+			{Name: "rewrite: slices unshared by a pointer-receiver helper on the shallow copy", Edits: []Edit{
+				{File: cfgFile, Old: "\tcp.Peers = slices.Clone(c.Peers)\n", New: "\tcp.unsharePeers()\n"},
+				{File: cfgFile, Old: "// Redacted returns a copy of the config with sensitive values redacted.", New: "func (c *Config) unsharePeers() {\n\tc.Peers = slices.Clone(c.Peers)\n}\n\n// Redacted returns a copy of the config with sensitive values redacted."},
+			}},
 			{Name: "String renders the receiver", ExpectRule: "C35.R4", Edits: []Edit{
 				{File: cfgFile, Old: "\tredacted := c.Redacted()\n\tdata, _ := yaml.Marshal(redacted)", New: "\tdata, _ := yaml.Marshal(c)"},
 			}},
@@ -126,7 +156,7 @@ type c35Blanker struct {
 type c35Site struct {
 	root   ssa.Value
 	path   []kit.PathStep
-	top    ssa.CallInstruction
+	top    ssa.Instruction
 	header *ssa.BasicBlock // outermost loop header in the analysed function (nil: straight-line)
 	body   *ssa.BasicBlock
 	ok     bool
@@ -137,6 +167,8 @@ type c35Cx struct {
 	p        *kit.Program
 	r        *kit.Report
 	blankers map[*ssa.Function]*c35Blanker
+	maskers  map[*ssa.Function]*c35Blanker // value-returning func(string) string
+	tblanks  map[*ssa.Function]*c35Blanker // func([]*string) blanking every element
 }
 
 func c35IsStringPtr(t types.Type) bool {
@@ -222,6 +254,15 @@ func (cx *c35Cx) blanker(fn *ssa.Function) *c35Blanker {
 
 // c35EmptyEdges: which edge of a branch on cond implies that *param is the empty string.
 func c35EmptyEdges(cond ssa.Value, param ssa.Value) (onTrue, onFalse bool) {
+	return c35EmptyEdgesF(cond, func(v ssa.Value) bool {
+		u, ok := v.(*ssa.UnOp)
+		return ok && u.Op == token.MUL && u.X == param
+	})
+}
+
+// c35EmptyEdgesF: which edge of a branch on cond implies that the string recognised by isStr
+// is empty.
+func c35EmptyEdgesF(cond ssa.Value, isLoad func(ssa.Value) bool) (onTrue, onFalse bool) {
 	neg := false
 	for {
 		u, ok := cond.(*ssa.UnOp)
@@ -233,10 +274,6 @@ func c35EmptyEdges(cond ssa.Value, param ssa.Value) (onTrue, onFalse bool) {
 	b, ok := cond.(*ssa.BinOp)
 	if !ok {
 		return false, false
-	}
-	isLoad := func(v ssa.Value) bool {
-		u, ok := v.(*ssa.UnOp)
-		return ok && u.Op == token.MUL && u.X == param
 	}
 	isLen := func(v ssa.Value) bool {
 		c, ok := v.(*ssa.Call)
@@ -325,26 +362,32 @@ func c35LoopGuard(gs []kit.Guard, idx, sl ssa.Value) int {
 	// the counter
 	okCounter := false
 	switch x := idx.(type) {
-	case *ssa.BinOp: // range lowering: idx = phi + 1, phi = [-1, idx]
-		if phi, ok := x.X.(*ssa.Phi); ok && x.Op == token.ADD && len(phi.Edges) == 2 {
+	case *ssa.BinOp: // range lowering: idx = phi + 1, phi = [-1, idx, idx...] (one back edge per continue)
+		if phi, ok := x.X.(*ssa.Phi); ok && x.Op == token.ADD && len(phi.Edges) >= 2 {
 			one, _ := kit.ConstInt(x.Y)
-			for i, e := range phi.Edges {
-				if k, isc := kit.ConstInt(e); isc && k == -1 && phi.Edges[1-i] == ssa.Value(x) && one == 1 {
-					okCounter = true
+			inits, backs := 0, 0
+			for _, e := range phi.Edges {
+				if k, isc := kit.ConstInt(e); isc && k == -1 {
+					inits++
+				} else if e == ssa.Value(x) {
+					backs++
 				}
 			}
+			okCounter = one == 1 && inits == 1 && backs == len(phi.Edges)-1
 		}
 	case *ssa.Phi: // classic: phi = [0, phi + 1]
-		if len(x.Edges) == 2 {
-			for i, e := range x.Edges {
+		if len(x.Edges) >= 2 {
+			inits, backs := 0, 0
+			for _, e := range x.Edges {
 				if k, isc := kit.ConstInt(e); isc && k == 0 {
-					if inc, ok := x.Edges[1-i].(*ssa.BinOp); ok && inc.Op == token.ADD && inc.X == ssa.Value(x) {
-						if one, isOne := kit.ConstInt(inc.Y); isOne && one == 1 {
-							okCounter = true
-						}
+					inits++
+				} else if inc, ok := e.(*ssa.BinOp); ok && inc.Op == token.ADD && inc.X == ssa.Value(x) {
+					if one, isOne := kit.ConstInt(inc.Y); isOne && one == 1 {
+						backs++
 					}
 				}
 			}
+			okCounter = inits == 1 && backs == len(x.Edges)-1
 		}
 	}
 	if !okCounter {
@@ -377,7 +420,7 @@ func c35LoopGuard(gs []kit.Guard, idx, sl ssa.Value) int {
 
 // unconditional: call c executes for every element of every slice on its argument's path and
 // under no other condition.
-func (cx *c35Cx) unconditional(c ssa.CallInstruction, idx, sl []ssa.Value) (bool, string, *ssa.BasicBlock, *ssa.BasicBlock) {
+func (cx *c35Cx) unconditional(c ssa.Instruction, idx, sl []ssa.Value) (bool, string, *ssa.BasicBlock, *ssa.BasicBlock) {
 	gs := kit.GuardsOf(c)
 	used := map[int]bool{}
 	var header, body *ssa.BasicBlock
@@ -500,8 +543,440 @@ func (cx *c35Cx) collect(fn *ssa.Function, bind map[ssa.Value][]kit.PathStep, de
 				sites = append(sites, s)
 			}
 		}
+		// a table of pointers into the object handed to a helper that blanks every entry:
+		// redactAll(copy.secretFields())
+		if tb := cx.tableBlanker(cal.Static); tb != nil && depth < 3 {
+			for _, a := range c.Common().Args {
+				tcall, ok := a.(*ssa.Call)
+				if !ok {
+					continue
+				}
+				tf := kit.CalleeOf(tcall).Static
+				if tf == nil || tf.Blocks == nil || !kit.IsRepoPkg(kit.FuncPkgPath(tf)) {
+					continue
+				}
+				for j, ta := range tcall.Call.Args {
+					if _, isPtr := ta.Type().Underlying().(*types.Pointer); !isPtr || j >= len(tf.Params) {
+						continue
+					}
+					root, path, idx, sl, ok := kit.AddrPath(ta)
+					if !ok {
+						continue
+					}
+					prefix, tracked := bind[root]
+					if !tracked {
+						continue
+					}
+					uncond, why, header, body := cx.unconditional(c, idx, sl)
+					entries, known := cx.tableOf(tf, j, depth+1)
+					if !known {
+						continue
+					}
+					for _, e := range entries {
+						s := c35Site{root: root, path: c35Concat(c35Concat(prefix, path), e), top: c, header: header, body: body, ok: uncond && tb.total, why: why}
+						if !tb.total {
+							s.why = "the helper " + kit.FuncName(cal.Static) + " does not blank every entry of the table: " + tb.why
+						}
+						sites = append(sites, s)
+					}
+				}
+			}
+		}
 	}
+	// stores of a masked value (constant, result of a total func(string) string) or of a struct
+	// returned by a helper that masks its fields: x.f = masked(x.f), l.TLS = l.TLS.sanitized()
+	kit.Instrs(fn, func(in ssa.Instruction) {
+		st, ok := in.(*ssa.Store)
+		if !ok {
+			return
+		}
+		root, path, idx, sl, ok := kit.AddrPath(st.Addr)
+		if !ok {
+			return
+		}
+		prefix, tracked := bind[root]
+		if !tracked {
+			return
+		}
+		full := c35Concat(prefix, path)
+		if b, isB := st.Val.Type().Underlying().(*types.Basic); isB && b.Kind() == types.String {
+			isMasked, m := cx.maskedValue(st.Val, 0)
+			if !isMasked {
+				return
+			}
+			uncond, why, header, body := cx.unconditional(st, idx, sl)
+			s := c35Site{root: root, path: full, top: st, header: header, body: body, ok: uncond, why: why}
+			if m != nil {
+				if mb := cx.masker(m); mb != nil && !mb.total {
+					s.ok, s.why = false, "the helper "+kit.FuncName(m)+" does not mask every non-empty string: "+mb.why
+				}
+			}
+			sites = append(sites, s)
+			return
+		}
+		if _, isStruct := st.Val.Type().Underlying().(*types.Struct); isStruct && depth < 3 {
+			call, isCall := st.Val.(*ssa.Call)
+			if !isCall {
+				return
+			}
+			f := kit.CalleeOf(call).Static
+			if f == nil || f.Blocks == nil || !kit.IsRepoPkg(kit.FuncPkgPath(f)) {
+				return
+			}
+			uncond, why, header, body := cx.unconditional(st, idx, sl)
+			for _, rel := range cx.structSummary(f, depth+1) {
+				sites = append(sites, c35Site{root: root, path: c35Concat(full, rel), top: st, header: header, body: body, ok: uncond, why: why})
+			}
+		}
+	})
 	return sites
+}
+
+// masker: fn has the shape func(string) string; total when every value it returns is a
+// constant, or its argument on an edge that implies the argument is empty.
+func (cx *c35Cx) masker(fn *ssa.Function) *c35Blanker {
+	if b, ok := cx.maskers[fn]; ok {
+		return b
+	}
+	cx.maskers[fn] = nil
+	sig := fn.Signature
+	isStr := func(t types.Type) bool {
+		b, ok := t.Underlying().(*types.Basic)
+		return ok && b.Kind() == types.String
+	}
+	if fn.Blocks == nil || sig.Recv() != nil || sig.Params().Len() != 1 || sig.Results().Len() != 1 || !isStr(sig.Params().At(0).Type()) || !isStr(sig.Results().At(0).Type()) {
+		return nil
+	}
+	b := &c35Blanker{total: true}
+	cx.maskers[fn] = b
+	param := ssa.Value(fn.Params[0])
+	n := 0
+	for _, ret := range kit.Returns(fn) {
+		if ret.Block() == fn.Recover {
+			continue
+		}
+		for _, l := range kit.GuardedLeaves(kit.ReturnResult(ret, 0), ret) {
+			n++
+			if _, isConst := l.V.(*ssa.Const); isConst {
+				continue
+			}
+			okEmpty := false
+			if l.V == param {
+				for _, g := range l.Guards {
+					t, f := c35EmptyEdgesF(g.Cond, func(v ssa.Value) bool { return v == param })
+					if (g.Polarity && t) || (!g.Polarity && f) {
+						okEmpty = true
+					}
+				}
+			}
+			if !okEmpty {
+				b.total = false
+				b.why = "it can return a value computed from its argument (" + cx.p.Pos(ret.Pos()) + ")"
+			}
+		}
+	}
+	if n == 0 {
+		b.total, b.why = false, "it never returns"
+	}
+	return b
+}
+
+// maskedValue: v is a string that cannot carry a secret: a constant or the result of a
+// value masker (returned so that its totality can be judged).
+func (cx *c35Cx) maskedValue(v ssa.Value, depth int) (bool, *ssa.Function) {
+	switch x := v.(type) {
+	case *ssa.Const:
+		return true, nil
+	case *ssa.Call:
+		if f := kit.CalleeOf(x).Static; f != nil && cx.masker(f) != nil {
+			return true, f
+		}
+	case *ssa.Phi:
+		if depth > 4 {
+			return false, nil
+		}
+		var m *ssa.Function
+		for _, e := range x.Edges {
+			ok, f := cx.maskedValue(e, depth+1)
+			if !ok {
+				return false, nil
+			}
+			if f != nil {
+				m = f
+			}
+		}
+		return true, m
+	}
+	return false, nil
+}
+
+// structSummary: the relative access paths that are blanked in the struct value fn returns,
+// on every path to every return (fn works on a local copy: func (t T) sanitized() T).
+func (cx *c35Cx) structSummary(fn *ssa.Function, depth int) [][]kit.PathStep {
+	var common [][]kit.PathStep
+	first := true
+	for _, ret := range kit.Returns(fn) {
+		if ret.Block() == fn.Recover || len(ret.Results) == 0 {
+			continue
+		}
+		var here [][]kit.PathStep
+		// (not kit.ReturnResult: the local copy is loaded, not spilled)
+		u, ok := ret.Results[0].(*ssa.UnOp)
+		if ok && u.Op == token.MUL {
+			if a, isAlloc := u.X.(*ssa.Alloc); isAlloc {
+				for _, s := range cx.collect(fn, map[ssa.Value][]kit.PathStep{a: nil}, depth) {
+					if s.ok && c35DomOK(s, ret) {
+						here = append(here, s.path)
+					}
+				}
+			}
+		}
+		if first {
+			common, first = here, false
+			continue
+		}
+		var keep [][]kit.PathStep
+		for _, c := range common {
+			for _, h := range here {
+				if kit.SamePath(c, h) {
+					keep = append(keep, c)
+					break
+				}
+			}
+		}
+		common = keep
+	}
+	return common
+}
+
+// tableBlanker: fn takes a []*string and blanks what every entry points to (a loop over the
+// whole slice whose body overwrites *entry with a constant unless it is empty).
+func (cx *c35Cx) tableBlanker(fn *ssa.Function) *c35Blanker {
+	if b, ok := cx.tblanks[fn]; ok {
+		return b
+	}
+	cx.tblanks[fn] = nil
+	if fn.Blocks == nil || fn.Signature.Params().Len() != 1 || len(fn.Params) != 1 {
+		return nil
+	}
+	sl, ok := fn.Signature.Params().At(0).Type().Underlying().(*types.Slice)
+	if !ok || !c35IsStringPtr(sl.Elem()) {
+		return nil
+	}
+	b := &c35Blanker{}
+	cx.tblanks[fn] = b
+	param := ssa.Value(fn.Params[0])
+	b.why = "it has no loop over the whole table that overwrites each entry with a constant"
+	kit.Instrs(fn, func(in ssa.Instruction) {
+		st, ok := in.(*ssa.Store)
+		if !ok {
+			return
+		}
+		if _, isConst := st.Val.(*ssa.Const); !isConst {
+			return
+		}
+		// the pointer stored through is table[idx]
+		ptr, ok := st.Addr.(*ssa.UnOp)
+		if !ok || ptr.Op != token.MUL {
+			return
+		}
+		ia, ok := ptr.X.(*ssa.IndexAddr)
+		if !ok || ia.X != param {
+			return
+		}
+		gs := kit.GuardsOf(st)
+		gi := c35LoopGuard(gs, ia.Index, param)
+		if gi < 0 {
+			b.why = "the loop does not run over the whole table"
+			return
+		}
+		header := gs[gi].If.Block()
+		body := header.Succs[0]
+		// can the next iteration be reached from the loop body without the store, other than
+		// on edges that imply the entry is empty?
+		stops := map[*ssa.BasicBlock]bool{st.Block(): true}
+		blocked := map[kit.Edge]bool{}
+		for _, blk := range fn.Blocks {
+			if len(blk.Instrs) == 0 || len(blk.Succs) != 2 {
+				continue
+			}
+			ifi, isIf := blk.Instrs[len(blk.Instrs)-1].(*ssa.If)
+			if !isIf || blk == header {
+				continue
+			}
+			isEntry := func(v ssa.Value) bool {
+				u, ok := v.(*ssa.UnOp)
+				if !ok || u.Op != token.MUL {
+					return false
+				}
+				// *entry where entry is (another load of) table[idx]
+				pu, ok := u.X.(*ssa.UnOp)
+				if !ok || pu.Op != token.MUL {
+					return false
+				}
+				pia, ok := pu.X.(*ssa.IndexAddr)
+				return ok && pia.X == param && pia.Index == ia.Index
+			}
+			if t, f := c35EmptyEdgesF(ifi.Cond, isEntry); t {
+				blocked[kit.Edge{From: blk, To: blk.Succs[0]}] = true
+			} else if f {
+				blocked[kit.Edge{From: blk, To: blk.Succs[1]}] = true
+			}
+		}
+		if stops[body] {
+			b.total, b.why = true, ""
+			return
+		}
+		reach := kit.Reach(body, blocked, stops)
+		if reach[header] {
+			b.total = false
+			b.why = "some non-empty entries are skipped (a condition other than an emptiness test guards the overwrite)"
+			return
+		}
+		b.total, b.why = true, ""
+	})
+	return b
+}
+
+// tableOf: the access paths (relative to what parameter k of fn points to) whose addresses are
+// in the []*string that fn returns, on every path and for every element of the slices on the
+// path. known=false when the construction of the table is not understood.
+func (cx *c35Cx) tableOf(fn *ssa.Function, k int, depth int) (entries [][]kit.PathStep, known bool) {
+	if depth > 4 || k >= len(fn.Params) || fn.Signature.Results().Len() != 1 {
+		return nil, false
+	}
+	rs, ok := fn.Signature.Results().At(0).Type().Underlying().(*types.Slice)
+	if !ok || !c35IsStringPtr(rs.Elem()) {
+		return nil, false
+	}
+	root := ssa.Value(fn.Params[k])
+	var rets []*ssa.Return
+	for _, ret := range kit.Returns(fn) {
+		if ret.Block() != fn.Recover {
+			rets = append(rets, ret)
+		}
+	}
+	known = true
+	addAddr := func(addr ssa.Value, anchor ssa.Instruction, sub [][]kit.PathStep) {
+		r0, path, idx, sl, ok := kit.AddrPath(addr)
+		if !ok || r0 != root {
+			return // a pointer to something else: irrelevant for this object
+		}
+		uncond, _, header, body := cx.unconditional(anchor, idx, sl)
+		if !uncond {
+			return
+		}
+		site := c35Site{top: anchor, header: header, body: body}
+		for _, ret := range rets {
+			if !c35DomOK(site, ret) {
+				return
+			}
+		}
+		if sub == nil {
+			entries = append(entries, path)
+			return
+		}
+		for _, e := range sub {
+			entries = append(entries, c35Concat(path, e))
+		}
+	}
+	// elements stored into a backing array (slice literal / varargs)
+	fromArray := func(a *ssa.Alloc, anchor ssa.Instruction) {
+		if a.Referrers() == nil {
+			return
+		}
+		for _, ref := range *a.Referrers() {
+			ia, ok := ref.(*ssa.IndexAddr)
+			if !ok || ia.Referrers() == nil {
+				continue
+			}
+			for _, rr := range *ia.Referrers() {
+				if st, ok := rr.(*ssa.Store); ok && st.Addr == ssa.Value(ia) {
+					addAddr(st.Val, anchor, nil)
+				}
+			}
+		}
+	}
+	seen := map[ssa.Value]bool{}
+	var visit func(v ssa.Value)
+	fromCall := func(c *ssa.Call, anchor ssa.Instruction) bool {
+		tf := kit.CalleeOf(c).Static
+		if tf == nil || tf.Blocks == nil || !kit.IsRepoPkg(kit.FuncPkgPath(tf)) {
+			return false
+		}
+		for j, a := range c.Call.Args {
+			if _, isPtr := a.Type().Underlying().(*types.Pointer); !isPtr {
+				continue
+			}
+			sub, ok := cx.tableOf(tf, j, depth+1)
+			if !ok {
+				return false
+			}
+			addAddr(a, anchor, sub)
+			if len(sub) == 0 {
+				_ = sub
+			}
+		}
+		return true
+	}
+	visit = func(v ssa.Value) {
+		if seen[v] || !known {
+			return
+		}
+		seen[v] = true
+		switch x := v.(type) {
+		case *ssa.Phi:
+			for _, e := range x.Edges {
+				visit(e)
+			}
+		case *ssa.Const:
+			if x.Value != nil {
+				known = false
+			}
+		case *ssa.Slice:
+			if a, ok := x.X.(*ssa.Alloc); ok {
+				fromArray(a, x)
+			} else {
+				visit(x.X)
+			}
+		case *ssa.MakeSlice:
+		case *ssa.Call:
+			cal := kit.CalleeOf(x)
+			if cal.Built == "append" {
+				visit(x.Call.Args[0])
+				if len(x.Call.Args) > 1 {
+					switch y := x.Call.Args[1].(type) {
+					case *ssa.Slice:
+						if a, ok := y.X.(*ssa.Alloc); ok {
+							fromArray(a, x)
+						} else {
+							known = false
+						}
+					case *ssa.Call:
+						if !fromCall(y, x) {
+							known = false
+						}
+					case *ssa.Const:
+					default:
+						known = false
+					}
+				}
+				return
+			}
+			if !fromCall(x, x) {
+				known = false
+			}
+		default:
+			known = false
+		}
+	}
+	for _, ret := range rets {
+		visit(kit.ReturnResult(ret, 0))
+	}
+	if len(rets) == 0 {
+		known = false
+	}
+	return entries, known
 }
 
 // ---------- returned values
@@ -650,6 +1125,55 @@ func (cx *c35Cx) refFresh(root ssa.Value, fn *ssa.Function, S []kit.PathStep, be
 			}
 		})
 		dominating := false
+		// a helper that receives (a prefix of) the object and replaces the slice itself:
+		// cp.unshareLists() with c.Listeners = slices.Clone(c.Listeners) inside
+		for _, c := range kit.Calls(fn) {
+			call, isCall := c.(*ssa.Call)
+			h := kit.CalleeOf(c).Static
+			if !isCall || h == nil || h.Blocks == nil || !kit.IsRepoPkg(kit.FuncPkgPath(h)) || depth >= 3 {
+				continue
+			}
+			for i, a := range call.Call.Args {
+				if _, isPtr := a.Type().Underlying().(*types.Pointer); !isPtr || i >= len(h.Params) {
+					continue
+				}
+				r0, pa, _, _, ok := kit.AddrPath(a)
+				if !ok || r0 != ssa.Value(x) || len(pa) > len(S) || !kit.SamePath(pa, S[:len(pa)]) {
+					continue
+				}
+				rel := S[len(pa):]
+				good, bad := false, ""
+				kit.Instrs(h, func(in ssa.Instruction) {
+					st, ok := in.(*ssa.Store)
+					if !ok {
+						return
+					}
+					r1, p1, _, _, ok := kit.AddrPath(st.Addr)
+					if !ok || r1 != ssa.Value(h.Params[i]) || !kit.SamePath(p1, rel) {
+						return
+					}
+					if !c35FreshSlice(st.Val, 0) {
+						bad = cx.p.Pos(st.Pos())
+						return
+					}
+					all := true
+					for _, ret := range kit.Returns(h) {
+						if ret.Block() != h.Recover && !kit.Precedes(st, ret) {
+							all = false
+						}
+					}
+					if all {
+						good = true
+					}
+				})
+				if bad != "" {
+					return false, "the copy's " + sname + " is assigned a slice that is not freshly allocated (" + bad + "): it shares its elements with the original"
+				}
+				if good && kit.Precedes(call, before) {
+					dominating = true
+				}
+			}
+		}
 		for _, st := range stores {
 			if !c35FreshSlice(st.Val, 0) {
 				return false, "the copy's " + sname + " is assigned a slice that is not freshly allocated (" + cx.p.Pos(st.Pos()) + "): it shares its elements with the original"
@@ -705,7 +1229,7 @@ func runC35(p *kit.Program, r *kit.Report) {
 	r.Rule("C35.R3", "redaction writes only into the copy: no blanking call or store is rooted at the receiver, and every slice that is written through is freshly allocated in the copy")
 	r.Rule("C35.R4", "String() uses its receiver only to call Redacted()")
 	const pkg = "internal/config"
-	cx := &c35Cx{p: p, r: r, blankers: map[*ssa.Function]*c35Blanker{}}
+	cx := &c35Cx{p: p, r: r, blankers: map[*ssa.Function]*c35Blanker{}, maskers: map[*ssa.Function]*c35Blanker{}, tblanks: map[*ssa.Function]*c35Blanker{}}
 	cfg := p.NamedType(pkg, "Config")
 	red := p.Func(pkg, "Config", "Redacted")
 	str := p.Func(pkg, "Config", "String")
@@ -832,6 +1356,17 @@ func runC35(p *kit.Program, r *kit.Report) {
 			candidates[fn] = true
 		}
 	}
+	for fn, b := range cx.tblanks {
+		if b != nil {
+			candidates[fn] = true
+		}
+	}
+	for fn, b := range cx.maskers {
+		// a func(string) string is only a masking helper if it masks; others are judged where used
+		if b != nil && b.total {
+			candidates[fn] = true
+		}
+	}
 	var cand []*ssa.Function
 	for fn := range candidates {
 		cand = append(cand, fn)
@@ -839,12 +1374,15 @@ func runC35(p *kit.Program, r *kit.Report) {
 	sort.Slice(cand, func(i, j int) bool { return cand[i].Pos() < cand[j].Pos() })
 	for _, fn := range cand {
 		b := cx.blankers[fn]
+		if b == nil {
+			b = cx.tblanks[fn]
+		}
+		if b == nil {
+			b = cx.maskers[fn]
+		}
 		r.Decide(b.total, "C35.R1", kit.FuncName(fn)+" blanks every non-empty string", p.Pos(fn.Pos()),
-			"every path through the helper overwrites a non-empty *s with a constant",
+			"every path through the helper replaces a non-empty string by a constant",
 			"the blanking helper leaves some non-empty strings in place ("+b.why+"): those secrets appear in the redacted rendering")
-	}
-	if len(roots) > 0 {
-		r.Require(len(cand) >= 1, "anchor-unresolved: no func(*string) blanking helper is called on the returned copy")
 	}
 
 	// ---- R1 coverage
